@@ -132,6 +132,28 @@ Proof. exact branch_heads_spec. Qed.
 Print Assumptions branch_heads_from_ref_files.
 
 (* ------------------------------------------------------------------ *)
+(* commits are identified by their FULL id                               *)
+
+(* repo.commit(hexsha) -- the step from a hexsha read from the ref files (a branch head, the commit of a build tag)
+   to a commit of the history -- answers with the commit whose id is exactly that text, all digits of it ... *)
+Theorem commit_of_full_id : forall shas sha k,
+  index_of sha shas = Some k -> nth_error shas k = Some sha.
+Proof. intros shas sha k. apply index_of_sound. Qed.
+Print Assumptions commit_of_full_id.
+
+(* ... every commit is found under its own id when the ids are pairwise different (in one digit or in forty) ... *)
+Theorem commit_found_by_its_id : forall shas sha k,
+  NoDup shas -> nth_error shas k = Some sha -> index_of sha shas = Some k.
+Proof. intros shas sha k. apply index_of_complete. Qed.
+Print Assumptions commit_found_by_its_id.
+
+(* ... and two different ids never denote the same commit, however long a prefix (or suffix) they share *)
+Theorem different_ids_different_commits : forall shas a b i j,
+  index_of a shas = Some i -> index_of b shas = Some j -> a <> b -> i <> j.
+Proof. intros shas a b i j. apply index_of_differs. Qed.
+Print Assumptions different_ids_different_commits.
+
+(* ------------------------------------------------------------------ *)
 (* the hypotheses are satisfiable: the file 'git pack-refs --all' writes for two branches of origin, a branch of
    another remote, a local branch, an annotated build tag and a lightweight tag; origin/release/1.0 also has a
    loose file (fetched after the packing)                                                                    *)
@@ -168,3 +190,14 @@ Example refs_example :
         (zs "v1.0", zs "7777777777777777777777777777777777777777")].
 Proof. vm_compute. repeat split; reflexivity. Qed.
 Print Assumptions refs_example.
+
+(* two commits whose ids share the first 39 digits (and a third that shares the last 39 with the first) *)
+Example ids_sharing_39_digits :
+  let shas := [zs "1234567890abcdef1234567890abcdef12345670";
+               zs "1234567890abcdef1234567890abcdef12345671";
+               zs "0234567890abcdef1234567890abcdef12345670"] in
+  index_of (zs "1234567890abcdef1234567890abcdef12345671") shas = Some 1%nat /\
+  index_of (zs "0234567890abcdef1234567890abcdef12345670") shas = Some 2%nat /\
+  index_of (zs "1234567890a") shas = None.
+Proof. vm_compute. repeat split; reflexivity. Qed.
+Print Assumptions ids_sharing_39_digits.
